@@ -99,6 +99,16 @@ pub fn language_membership() -> (u64, Vec<Violation>) {
     (n, out)
 }
 
+pub const BUILT_PARTS: &[&str] = &[
+    "1", "2.5", "\"a\"", "()", "[]", "[1]", "[2.5]", "[1, 2.5]", "[[]]", "[[1]]", "(1, 2)", "(1, 2.5)", "struct{ a := 1 }",
+    "struct{ a := 1, b := 2.5 }", "struct{ a := 2.5 }", "mut 1", "(x: any) -> int { return 1 }", "(x: int) -> int { return 1 }",
+    "(x: int) -> any { return 1 }",
+];
+pub const BUILT_FORMS: &[&str] = &[
+    "[X, Y]", "[X] + [Y]", "[[X, Y]]", "[X, Y, X][0:2]", "[X; 1] + [Y; 1]", "[[X], [Y]]", "[(X, 1), (Y, 1)]", "([X, Y], 1)", "[X, Y, X]", "[Y] + [X, Y]",
+    "X + Y", "[X] + [Y] + [X]", "[X + Y]", "(X + Y, 1)", "[X, X] + [Y, Y][1:]",
+];
+
 /// Values *built* from parts whose types are related (an empty array before a non-empty one, a
 /// narrower struct / tuple / function before a wider one, and the other way round): every ordered
 /// pair of a base set of parts, put together by every aggregate-building form, written as a
@@ -108,12 +118,14 @@ pub fn language_membership() -> (u64, Vec<Violation>) {
 fn built_values(u2: &[Ty], tys: &[Type]) -> (u64, Vec<Violation>) {
     use simplesl::variable::Variable;
     use simplesl::{Code, Interpreter};
-    const PARTS: &[&str] = &[
+    const PARTS: &[&str] = BUILT_PARTS;
+    const _OLD_PARTS: &[&str] = &[
         "1", "2.5", "\"a\"", "()", "[]", "[1]", "[2.5]", "[1, 2.5]", "[[]]", "[[1]]", "(1, 2)", "(1, 2.5)", "struct{ a := 1 }",
         "struct{ a := 1, b := 2.5 }", "struct{ a := 2.5 }", "mut 1", "(x: any) -> int { return 1 }", "(x: int) -> int { return 1 }",
         "(x: int) -> any { return 1 }",
     ];
-    const FORMS: &[&str] = &["[X, Y]", "[X] + [Y]", "[[X, Y]]", "[X, Y, X][0:2]", "[X; 1] + [Y; 1]", "[[X], [Y]]", "[(X, 1), (Y, 1)]", "([X, Y], 1)", "[X, Y, X]", "[Y] + [X, Y]"];
+    const FORMS: &[&str] = BUILT_FORMS;
+    const _OLD_FORMS: &[&str] = &["[X, Y]", "[X] + [Y]", "[[X, Y]]", "[X, Y, X][0:2]", "[X; 1] + [Y; 1]", "[[X], [Y]]", "[(X, 1), (Y, 1)]", "([X, Y], 1)", "[X, Y, X]", "[Y] + [X, Y]"];
     let n = PARTS.len() * PARTS.len() * FORMS.len() * 2;
     let accs = par_fold(
         n,
@@ -430,7 +442,7 @@ pub fn run(tier: &str) -> i32 {
         "triples_for_transitivity": triples,
         "palette_values": n_values,
         "language_membership_cases (if-set / match type arm / ? T on value x tested type x static type of the tested expression)": lang.0,
-        "built_values (ordered pairs of 19 parts x 10 aggregate forms x constant / run-time, each against its own tag and every type of U2)": built.0,
+        "built_values (ordered pairs of 19 parts x 15 aggregate forms x constant / run-time, each against its own tag and every type of U2)": built.0,
         "type_pairs_separated_by_values": separated,
         "types_without_inhabitant_in_palette": thin,
         "distinct_outcomes": 2,
